@@ -302,3 +302,39 @@ Proof.
     rewrite skipn_app. replace (k - length d) with 0 by lia. rewrite skipn_all2 by lia. change (skipn 0 (concat ds)) with (concat ds). change ([] ++ concat ds)%list with (concat ds).
     f_equal. apply IH. lia.
 Qed.
+
+(* ---------------------------------------------------------------- plain table decoders, every input *)
+Definition plain_body (tname : string) : list st :=
+  [SAssign "result" (EDict []); SDecode (EVar "data") tname "result"; SReturn (EVar "result")].
+
+Theorem plain_decoder_total : forall (name tname : string) (F : fundef) (T : layout),
+  lookup name py_program = Some F -> fn_params F = [("data", None)] -> fn_body F = plain_body tname ->
+  lookup tname all_tables = Some T -> masks_nonzero T = true -> names_distinct (map fst T) = true ->
+  forall (data : bytes) f, 1 <= f ->
+  call_fun all_tables py_program f name [PBytes data] = Ok (PDict (dict_of_decoded (decode_total data T))).
+Proof.
+  intros name tname F T HF Hp Hb HT Hm Hd data f Hf. destruct f as [|f]; [lia|].
+  unfold call_fun, call_with. rewrite HF, Hp. cbn [bind_params]. rewrite run_S, exec_if. cbn [eval truthy]. rewrite Hb. unfold plain_body.
+  step. step. cbn [lookup String.eqb Ascii.eqb Bool.eqb]. rewrite HT. rewrite decode_bits_total by exact Hm. unfold with_var. lk.
+  rewrite dict_update_nil by (unfold dict_of_decoded; rewrite map_map; cbn [fst]; rewrite decode_total_names by exact Hm; exact Hd).
+  step. reflexivity.
+Qed.
+
+Definition T_rc10 := T_scsi_cdb_readcapacity10__ReadCapacity10___datain_bits.
+Definition T_rc16 := T_scsi_cdb_readcapacity16__ReadCapacity16___datain_bits.
+
+Theorem readcapacity10_total : forall (data : bytes) f, 1 <= f ->
+  call_fun all_tables py_program f "scsi_cdb_readcapacity10.ReadCapacity10.unmarshall_datain" [PBytes data]
+  = Ok (PDict (dict_of_decoded (decode_total data T_rc10))).
+Proof.
+  apply (plain_decoder_total _ "scsi_cdb_readcapacity10.ReadCapacity10._datain_bits" PF_scsi_cdb_readcapacity10_ReadCapacity10_unmarshall_datain);
+    vm_compute; reflexivity.
+Qed.
+
+Theorem readcapacity16_total : forall (data : bytes) f, 1 <= f ->
+  call_fun all_tables py_program f "scsi_cdb_readcapacity16.ReadCapacity16.unmarshall_datain" [PBytes data]
+  = Ok (PDict (dict_of_decoded (decode_total data T_rc16))).
+Proof.
+  apply (plain_decoder_total _ "scsi_cdb_readcapacity16.ReadCapacity16._datain_bits" PF_scsi_cdb_readcapacity16_ReadCapacity16_unmarshall_datain);
+    vm_compute; reflexivity.
+Qed.
